@@ -15,41 +15,50 @@ VARIABLES l,        \* next line of Rec
           stats,
           l0,       \* line of the current case's begin event (walk records refer to call-by-call records by offset)
           rep,      \* invariant names already reported in the current case (each is reported once per case)
-          nk,       \* cases in which the known class AuxCurtailed (F-C01-1) has been reported; beyond KnownCap they are
-                    \* only counted (stats.curtailed) - `viol` is part of every state, its size is paid on every line
+          nk,       \* per known-class name (F-C01-1, F-C01-2, F-C08-2): cases in which it has been reported; beyond KnownCap
+                    \* they are only counted in stats - `viol` is part of every state, its size is paid on every line
           pex,      \* the last accepted record was exact
           drifts    \* first few drift samples
 tvars == <<vars, l, viol, stats, l0, rep, nk, pex, drifts>>
-KnownCap == 250
+KnownCap == 120
+KnownNames == {"AuxCurtailed", "HybAuxRoll", "HybEngineOff", "HybGssPanic"}
 
 Stat0 == [cases |-> 0, pubs |-> 0, accepted |-> 0, rejected |-> 0, hist |-> 0, exact |-> 0, inexact |-> 0,
           b_checked |-> 0, drift_pub |-> 0, drift_ok |-> 0, drift_val |-> 0, walk_diff |-> 0, walk_fail |-> 0,
-          curtailed |-> 0, soc_checked |-> 0, eng_off |-> 0, regen |-> 0, dynbrk |-> 0, at_limit |-> 0]
+          curtailed |-> 0, soc_checked |-> 0, eng_off |-> 0, regen |-> 0, dynbrk |-> 0, at_limit |-> 0,
+          hyb_acc |-> 0, hyb_off |-> 0, hyb_gss |-> 0,
+          \* boundary hits: recorded states on which the named conjunct is evaluated within Band of its own limit
+          bh_FcRating |-> 0, bh_FcTransient |-> 0, bh_GenRating |-> 0, bh_EdrvRating |-> 0, bh_ResRating |-> 0,
+          bh_ResDisch |-> 0, bh_ResCharge |-> 0, bh_LocoPub |-> 0, bh_SocWindow |-> 0, bh_Ramp |-> 0, bh_PublishedSane |-> 0,
+          \* ... and over-limit requests of that kind that the code rejected
+          rej_over |-> 0]
 DummyCfg == [kind |-> "conv", rfc |-> 1, rgen |-> 1, redrv |-> 1, rres |-> 1, floor |-> 0, lag |-> 1, aux |-> 0,
              auxkd |-> 0, idle |-> 0, kf |-> 1, kg |-> 1, ke |-> 1, kr |-> 1, flat |-> TRUE, cap |-> 16, smin |-> 0,
-             slo |-> 0, shi |-> 16, smax |-> 16, delta |-> 1, ps |-> 1, ds |-> 1, lat |-> FALSE, assert |-> TRUE]
+             slo |-> 0, shi |-> 16, smax |-> 16, delta |-> 1, ps |-> 1, ds |-> 1, lat |-> FALSE, assert |-> TRUE,
+             pb0 |-> 0, haux |-> 0, split2 |-> 1, gssr |-> 0, gssk |-> 0]
 
-TInit == /\ l = 1 /\ viol = <<>> /\ stats = Stat0 /\ l0 = 1 /\ rep = {} /\ nk = 0 /\ pex = TRUE /\ drifts = <<>>
+TInit == /\ l = 1 /\ viol = <<>> /\ stats = Stat0 /\ l0 = 1 /\ rep = {} /\ nk = [x \in KnownNames |-> 0] /\ pex = TRUE /\ drifts = <<>>
          /\ cfg = DummyCfg /\ soc0 = 0 /\ soc = 0 /\ psoc = 0
          /\ pc = "aux" /\ st = ZeroSt /\ pub = ZeroPub /\ p = Zero /\ e = Zero /\ pe = Zero /\ eta = Eta1
          /\ gap = 0 /\ safe = TRUE /\ ex = TRUE /\ i = 1 /\ n = 0 /\ hist = <<>>
 
 Names(checks) == LET F == SelectSeq(checks, LAMBDA c : ~c[2]) IN [k \in 1..Len(F) |-> F[k][1]]
-Report(names0) == LET names == SelectSeq(names0, LAMBDA x : x \notin rep /\ (x = "AuxCurtailed" => nk < KnownCap)) IN
+Report(names0) == LET names == SelectSeq(names0, LAMBDA x : x \notin rep /\ (x \in KnownNames => nk[x] < KnownCap)) IN
                   /\ viol' = viol \o [k \in 1..Len(names) |-> <<l, Rec[l].case, names[k]>>]
                   /\ rep' = rep \cup {names[k] : k \in 1..Len(names)}
-                  /\ nk' = nk + (IF \E k \in 1..Len(names) : names[k] = "AuxCurtailed" THEN 1 ELSE 0)
+                  /\ nk' = [x \in KnownNames |-> nk[x] + (IF \E k \in 1..Len(names) : names[k] = x THEN 1 ELSE 0)]
 Bump(fs) == stats' = [f \in DOMAIN stats |-> stats[f] + (IF f \in DOMAIN fs THEN fs[f] ELSE 0)]
 B(c) == IF c THEN 1 ELSE 0
 Note(tag, info) == drifts' = IF Len(drifts) < 8 THEN Append(drifts, [line |-> l, case |-> Rec[l].case, what |-> tag, info |-> info])
                               ELSE drifts
 
 Reset(r) == /\ soc' = soc0' /\ psoc' = soc0'
-            /\ pc' = "aux" /\ st' = ZeroSt /\ pub' = ZeroPub /\ p' = Zero /\ e' = Zero /\ pe' = Zero /\ eta' = Eta1
+            /\ pc' = "aux" /\ st' = ZeroSt /\ pub' = ZeroPub /\ p' = [Zero EXCEPT !.brake = cfg'.pb0] /\ e' = Zero /\ pe' = Zero /\ eta' = Eta1
             /\ gap' = 0 /\ safe' = TRUE /\ ex' = TRUE /\ i' = 1 /\ n' = 0 /\ hist' = <<>> /\ pex' = TRUE
 
 Begin == /\ Rec[l].ev = "begin"
-         /\ cfg' = Rec[l].desc.cfg /\ soc0' = Rec[l].desc.soc0
+         /\ cfg' = Rec[l].desc.cfg @@ [pb0 |-> 0, haux |-> 0, split2 |-> 1, gssr |-> 0, gssk |-> 0]     \* descriptors older than the hybrid extension
+         /\ soc0' = Rec[l].desc.soc0
          /\ Reset(Rec[l]) /\ l0' = l /\ rep' = {}
          /\ Bump([cases |-> 1])
          /\ UNCHANGED <<viol, nk, drifts>>
@@ -61,13 +70,39 @@ AccChecks == <<
    <<"L1", L1'>>, <<"L2", L2'>>, <<"L3", L3'>>, <<"L4", L4'>>, <<"L5", L5'>>, <<"L6", L6'>>, <<"L7", L7'>>,
    <<"L8", L8'>>, <<"L9", L9'>>, <<"L10", L10'>>,
    <<"L1s", L1s'>>, <<"L2s", L2s'>>, <<"L3s", L3s'>>, <<"L4s", L4s'>>, <<"L5s", L5s'>>, <<"L6s", L6s'>>, <<"L7s", L7s'>>,
-   <<"L8s", L8s'>>, <<"L9s", L9s'>>, <<"L10s", L10s'>>, <<"AuxCurtailed", AuxCurtailed'>>, <<"Integ", Integ'>>,
+   <<"L8s", L8s'>>, <<"L9s", L9s'>>, <<"L10s", L10s'>>, <<"AuxCurtailed", AuxCurtailed'>>, <<"HybAuxRoll", HybAuxRoll'>>, <<"Integ", Integ'>>,
    <<"LossNonNeg", LossNonNeg'>>, <<"EtaRange", EtaRange'>>, <<"OrderFc", OrderFc'>>, <<"OrderGen", OrderGen'>>,
    <<"OrderEdrv", OrderEdrv'>>, <<"OrderRes", OrderRes'>>, <<"Monotone", Monotone'>>, <<"DynBrakeSign", DynBrakeSign'>>,
-   <<"EngineOff", EngineOff'>>,
+   <<"EngineOff", EngineOff'>>, <<"HybEngineOff", HybEngineOff'>>,
    <<"FcRating", FcRating'>>, <<"FcTransient", FcTransient'>>, <<"GenRating", GenRating'>>, <<"EdrvRating", EdrvRating'>>,
    <<"ResRating", ResRating'>>, <<"ResDisch", ResDisch'>>, <<"ResCharge", ResCharge'>>, <<"LocoPub", LocoPub'>>,
    <<"SocWindow", SocWindow'>> >>
+
+(* boundary hits: the conjunct's quantity lies within Band below its own limit (or in the tolerance band above it) *)
+Band(lim) == Max2(lim \div 64, 2 * cfg.delta)
+Near(v, lim) == v >= lim - Band(lim)
+AccStats(r) == [accepted |-> B(~r.walk), hist |-> B(r.walk), exact |-> B(ex'), inexact |-> B(~ex'),
+                curtailed |-> B(CurtailClass' /\ r.p.raux < r.p.aux),
+                soc_checked |-> B(cfg.kind # "conv" /\ safe'), eng_off |-> B(~st.eng),
+                regen |-> B(r.p.oute < 0), dynbrk |-> B(r.p.dyn > 0),
+                at_limit |-> B(r.req > 0 /\ r.req >= pub.loco),
+                hyb_acc |-> B(Hyb), hyb_off |-> B(Hyb /\ ~st.eng), hyb_gss |-> B(Hyb /\ cfg.gssr > 0),
+                bh_FcRating |-> B(HasFc /\ Near(r.p.brake, cfg.rfc)),
+                bh_FcTransient |-> B(HasFc /\ Near(r.p.brake, pub.fc)),
+                bh_GenRating |-> B(HasFc /\ Near(r.p.gprop + r.p.gaux, cfg.rgen)),
+                bh_EdrvRating |-> B(Near(Abs(r.p.oute), cfg.redrv)),
+                bh_ResRating |-> B(HasRes /\ Near(Abs(r.p.elec), cfg.rres)),
+                bh_ResDisch |-> B(HasRes /\ r.p.elec > 0 /\ Near(r.p.elec, pub.disch)),
+                bh_ResCharge |-> B(HasRes /\ r.p.elec < 0 /\ Near(-r.p.elec, pub.charge)),
+                bh_LocoPub |-> B(cfg.flat /\ r.req > 0 /\ Near(r.p.out, pub.loco)),
+                bh_SocWindow |-> B(HasRes /\ safe' /\ (r.soc <= cfg.smin + (cfg.slo - cfg.smin) \div 16
+                                                        \/ r.soc >= cfg.smax - (cfg.smax - cfg.shi) \div 16))]
+(* published limits sitting on a bound of PublishedSane / set by the ramp term of Ramp *)
+PubStats(r) == [bh_Ramp |-> B(HasFc /\ r.pub.fc < cfg.rfc /\ r.pub.fc > cfg.floor),
+                bh_PublishedSane |-> B(\/ (HasFc /\ (r.pub.fc = cfg.floor \/ r.pub.fc = cfg.rfc \/ r.pub.gen = cfg.rgen))
+                                       \/ r.pub.loco = cfg.redrv
+                                       \/ (HasRes /\ (r.pub.disch = 0 \/ r.pub.disch = cfg.rres \/ r.pub.charge = 0
+                                                       \/ r.pub.charge = cfg.rres \/ r.pub.regen = cfg.redrv)))]
 
 (* set_pwr_aux + set_cur_pwr_max_out (call by call, or as saved in the walk's history) *)
 Pub == /\ Rec[l].ev = "Pub"
@@ -79,15 +114,9 @@ Pub == /\ Rec[l].ev = "Pub"
        /\ Report(Names(PubChecks))
        /\ LET chk == cfg.lat /\ ex'
               bad == IF chk THEN pub' # PubOf(cfg, AuxOf(cfg, Rec[l].eng, p.out), p.brake, soc, Rec[l].dtq) ELSE FALSE
-          IN /\ Bump([pubs |-> 1, b_checked |-> B(chk), drift_pub |-> B(bad)])
+          IN /\ Bump(PubStats(Rec[l]) @@ [pubs |-> 1, b_checked |-> B(chk), drift_pub |-> B(bad)])
              /\ IF bad THEN Note("pub", [impl |-> pub', model |-> PubOf(cfg, AuxOf(cfg, Rec[l].eng, p.out), p.brake, soc, Rec[l].dtq)])
                        ELSE UNCHANGED drifts
-
-AccStats(r) == [accepted |-> B(~r.walk), hist |-> B(r.walk), exact |-> B(ex'), inexact |-> B(~ex'),
-                curtailed |-> B(CurtailClass' /\ r.p.raux < r.p.aux),
-                soc_checked |-> B(cfg.kind = "bel" /\ safe'), eng_off |-> B(~st.eng),
-                regen |-> B(r.p.oute < 0), dynbrk |-> B(r.p.dyn > 0),
-                at_limit |-> B(r.req > 0 /\ r.req >= pub.loco)]
 
 (* Level B one step ahead of the previous recorded state against the recorded successor *)
 DiffersFrom(mp, chem, walk) ==
@@ -101,9 +130,9 @@ SolveAcc == /\ Rec[l].ev = "Solve" /\ Rec[l].acc
             /\ p' = Rec[l].p /\ pe' = e /\ e' = Rec[l].e /\ eta' = Rec[l].eta
             /\ psoc' = soc /\ soc' = Rec[l].soc
             /\ pc' = "adv"
-            /\ gap' = gap + (IF cfg.kind = "bel" /\ Rec[l].req <= 0 /\ pub.propmax - Rec[l].p.ine < pub.aux
+            /\ gap' = gap + (IF cfg.kind = "hyb" \/ (cfg.kind = "bel" /\ Rec[l].req <= 0 /\ pub.propmax - Rec[l].p.ine < pub.aux)
                              THEN (Rec[l].e.aux - e.aux) - (Rec[l].e.raux - e.raux) - (Rec[l].e.gaux - e.gaux) ELSE 0)
-            /\ safe' = (safe /\ (cfg.kind = "bel" => DtSafeOk(st.dtq)))
+            /\ safe' = (safe /\ (cfg.kind # "conv" => DtSafeOk(st.dtq)))
             /\ ex' = (Rec[l].exact /\ ex) /\ pex' = ex'
             /\ i' = Rec[l].i /\ n' = n + 1
             /\ UNCHANGED <<cfg, pub, soc0, hist, l0>>
@@ -132,14 +161,15 @@ SolveRej == /\ Rec[l].ev = "Solve" /\ ~Rec[l].acc
             /\ UNCHANGED <<cfg, pub, p, e, pe, eta, soc, psoc, soc0, gap, safe, ex, i, hist, l0, rep, nk, pex, viol>>
             /\ LET chk == cfg.lat /\ ex /\ Rec[l].exact
                    bok == IF chk THEN SolveOf(cfg, pub, Rec[l].req, st.eng, soc).ok ELSE FALSE
-               IN /\ Bump([rejected |-> 1, b_checked |-> B(chk), drift_ok |-> B(bok)])
+               IN /\ Bump([rejected |-> 1, b_checked |-> B(chk), drift_ok |-> B(bok),
+                           rej_over |-> B(Rec[l].req > pub.loco /\ Rec[l].req <= pub.loco + Band(pub.loco))])
                   /\ IF bok THEN Note("rejected-but-model-accepts", [req |-> Rec[l].req, pub |-> pub, msg |-> Rec[l].msg])
                             ELSE UNCHANGED drifts
 
 (* the same accepted steps again, through LocomotiveSimulation::walk *)
 WalkBegin == /\ Rec[l].ev = "WalkBegin"
-             /\ soc0' = soc0 /\ Reset(Rec[l])
-             /\ UNCHANGED <<cfg, l0, rep, nk, viol, stats, drifts>>
+             /\ soc0' = soc0 /\ cfg' = cfg /\ Reset(Rec[l])
+             /\ UNCHANGED << l0, rep, nk, viol, stats, drifts>>
 
 WalkEnd == /\ Rec[l].ev = "WalkEnd"
            /\ Bump([walk_fail |-> B(~Rec[l].ok \/ Rec[l].n # Rec[l].want)])
@@ -148,7 +178,9 @@ WalkEnd == /\ Rec[l].ev = "WalkEnd"
 (* a NaN / a value beyond the Q range in a component state, a failed publication, a panic *)
 Broken == /\ Rec[l].ev \in {"Nan", "Overflow", "PubErr", "panic", "abort", "timeout"}
           /\ Report(<< CASE Rec[l].ev = "Nan" -> "NoNaN" [] Rec[l].ev = "Overflow" -> "InRange"
-                         [] Rec[l].ev = "PubErr" -> "PublishOk" [] OTHER -> "NoPanic" >>)
+                         [] Rec[l].ev = "PubErr" -> "PublishOk"
+                         [] Rec[l].ev = "panic" /\ Hyb /\ cfg.gssr > 0 -> "HybGssPanic"      \* F-C01-3
+                         [] OTHER -> "NoPanic" >>)
           /\ UNCHANGED <<vars, stats, l0, pex, drifts>>
 
 End == /\ Rec[l].ev = "end"
